@@ -28,9 +28,11 @@ package variants
 //@     k == tyBool() || k == tyTime() || k == tyDur() || k == tyArr() || k == tyVar() ||
 //@     k == typeid("int32") || k == typeid("uint") || k == typeid("uint32")
 //
-//@ pred vinv(v *Variant) = v != nil && Null <= v.typ && v.typ <= Array &&
-//@     (v.typ == Object ? (v.value != nil && !isHostTid(typeof(v.value))) : typeof(v.value) == payloadOf(v.typ)) &&
-//@     (v.typ == Null ==> v.value == nil)
+// (vinvF is the same statement over explicit field maps, for heap-free recursive specifications)
+//@ spec vinvF(vt fmap[VariantType], vv fmap[any], v *Variant) bool = v != nil && Null <= vt[v] && vt[v] <= Array &&
+//@     (vt[v] == Object ? (vv[v] != nil && !isHostTid(typeof(vv[v]))) : typeof(vv[v]) == payloadOf(vt[v])) &&
+//@     (vt[v] == Null ==> vv[v] == nil)
+//@ pred vinv(v *Variant) = vinvF(heapof(Variant, typ), heapof(Variant, value), v)
 //
 // the variant type SetAsObject must choose for a host value
 //@ spec typeForHost(x any) VariantType =
